@@ -27,8 +27,9 @@ RULE = ("race: case = topology + (suspender, resumer kind, rounds) pairs + sched
 
 @st.composite
 def race(draw, ctx):
-    topo, npools, nxs = draw(simple_topology(max_xs=3, scheds=("basic", "prio", "randws"),
-                                             pool_kinds=("fifo", "fifo", "fifo_wait", "randws")))
+    topo, npools, nxs = draw(simple_topology(max_xs=3, scheds=("basic", "prio", "randws", "basic_wait",
+                                                                "basic_wait"),
+                                             pool_kinds=("fifo", "fifo", "fifo_wait", "fifo_wait", "randws")))
     lines = [draw(sched_line(ctx, extra=" tick=1000"))] + topo
     units, exts, main_ops, tail = [], [], [], []
     for _ in range(draw(st.integers(1, 3))):
